@@ -10,6 +10,8 @@ import CG.Verilog
 import CG.VerilogTables
 import CG.Spec
 import CG.Proofs.Vlog
+import CG.Props.C14
+import CG.Proofs.VlogStruct
 namespace CG.C02
 open Verilog
 
@@ -330,5 +332,97 @@ example : ∀ a ∈ [("o", Expr.xor (.id "w") (.and (.id "a") (.id "b"))), ("w",
   · exact ⟨trivial, trivial, trivial⟩
   · exact trivial
   · exact ⟨trivial, trivial, Or.inl rfl⟩
+
+/-! ### structural netlists: primitive instances, net/constant assigns and blackbox instances, in any order
+
+The structural subset shared with the fast parser (`C14.RMod`: operands are nets or 1-bit constants).  The theorem is
+about the same `Verilog.transform` as above; `C14.Restricted` spells the subset out (every net an input or driven
+exactly once, every net read is driven, unary gates have one operand, named ports of a known blackbox). -/
+
+/-- the node an operand denotes in the parsed circuit, and its value -/
+def opNode : C14.ROp → Name
+  | .net n => n
+  | .c0 => "tie_0"
+  | .c1 => "tie_1"
+def opVal (v : Val) : C14.ROp → Bool
+  | .net n => v n
+  | .c0 => false
+  | .c1 => true
+
+/-- Verilog semantics of a primitive gate over its operand list (operands may repeat) -/
+def primFn (ty : String) (ins : List Bool) : Bool :=
+  if ty = "and" then ins.all id else if ty = "nand" then !ins.all id
+  else if ty = "or" then ins.any id else if ty = "nor" then !ins.any id
+  else if ty = "xor" then xorL ins else if ty = "xnor" then !xorL ins
+  else if ty = "not" then !(ins.headD false) else ins.headD false
+
+/-! glue: the definitions above coincide with their mirrors in `CG/Proofs/VlogStructB.lean` -/
+namespace Glue
+theorem opNode_eq (o : C14.ROp) : opNode o = (C14.Glue.op o).nm "tie_0" "tie_1" := by cases o <;> rfl
+theorem opVal_eq (v : Val) (o : C14.ROp) : opVal v o = VS.opVal v (C14.Glue.op o) := by cases o <;> rfl
+theorem primFn_eq : primFn = VS.primFn := rfl
+theorem lookup_op (pins : List (Name × Option C14.ROp)) (g : Name) :
+    (pins.map (fun p => (p.1, p.2.map C14.Glue.op))).lookup g = (pins.lookup g).map (Option.map C14.Glue.op) :=
+  VS.lookup_map_snd _ pins g
+theorem pin_list (pins : List (Name × Option C14.ROp)) (g : Name) :
+    (match (pins.map (fun p => (p.1, p.2.map C14.Glue.op))).lookup g with
+      | some (some o) => [o.nm "tie_0" "tie_1"] | _ => []) =
+    (match pins.lookup g with | some (some o) => [opNode o] | _ => []) := by
+  rw [lookup_op]
+  cases pins.lookup g with
+  | none => rfl
+  | some x =>
+    cases x with
+    | none => rfl
+    | some o => simp only [Option.map_some, opNode_eq]
+end Glue
+
+/-- **C02 (structural netlists).** for every netlist of the structural subset — any gate mix and arity, constants and
+    repeated operands, any order of declarations, instances and assigns (use before definition), blackbox instances with
+    connected, unconnected or omitted pins — the parser succeeds, inputs and outputs are exactly the declared ones, every
+    gate output and assigned net computes the value Verilog semantics gives it in every consistent valuation, and every
+    blackbox instance is present with each pin attached to exactly the net named in the instantiation -/
+theorem transform_struct_sem (r : C14.RMod) (bbs : List BBox) (ord : Ord) (hord : OrdOK ord) (h : C14.Restricted r bbs) :
+    ∃ c, transform r.toModule bbs ord = .ok c ∧ c.name = r.name ∧
+      (∀ x, x ∈ c.inputs ↔ x ∈ r.inputs) ∧ (∀ x, x ∈ c.outputs ↔ x ∈ r.outputs) ∧
+      (∀ ty inst out ops, C14.RStmt.gate ty inst out ops ∈ r.stmts →
+          ∀ v, Consistent c v → v out = primFn ty (ops.map (opVal v))) ∧
+      (∀ l rhs, C14.RStmt.assign l rhs ∈ r.stmts → ∀ v, Consistent c v → v l = opVal v rhs) ∧
+      (∀ ty inst pins, C14.RStmt.bb ty inst pins ∈ r.stmts →
+          ∃ d, bbs.find? (fun b => b.name == ty) = some d ∧ (inst, d) ∈ c.bbs ∧
+            (∀ g ∈ d.ins, c.ty? (inst ++ "." ++ g) = some "bb_input" ∧
+                c.fanin (inst ++ "." ++ g) = (match pins.lookup g with | some (some o) => [opNode o] | _ => [])) ∧
+            (∀ g ∈ d.outs, c.ty? (inst ++ "." ++ g) = some "bb_output" ∧
+                c.fanout (inst ++ "." ++ g) = (match pins.lookup g with | some (some o) => [opNode o] | _ => []))) := by
+  obtain ⟨cv, hv, sv⟩ := FV.full_spec (C14.Glue.restricted h) ord hord
+  rw [C14.Glue.toModule] at hv
+  have hr := C14.Glue.restricted h
+  refine ⟨cv, hv, sv.name, fun x => FV.spec_inputs hr sv x, fun x => FV.spec_outputs hr sv x, ?_, ?_, ?_⟩
+  · intro ty inst out ops hm v hc
+    have hm' : FV.RStmt.gate ty inst out (ops.map C14.Glue.op) ∈ (C14.Glue.mod r).stmts :=
+      List.mem_map.2 ⟨_, hm, rfl⟩
+    have hg := VS.gate_sem hr sv hm' v hc
+    rw [List.map_map] at hg
+    rw [hg, Glue.primFn_eq]
+    congr 1
+    exact List.map_congr_left (fun o _ => (Glue.opVal_eq v o).symm)
+  · intro l rhs hm v hc
+    have hm' : FV.RStmt.assign l (C14.Glue.op rhs) ∈ (C14.Glue.mod r).stmts := List.mem_map.2 ⟨_, hm, rfl⟩
+    rw [Glue.opVal_eq]
+    exact VS.assign_sem hr sv hm' v hc
+  · intro ty inst pins hm
+    have hm' : FV.RStmt.bb ty inst (pins.map (fun p => (p.1, p.2.map C14.Glue.op))) ∈ (C14.Glue.mod r).stmts :=
+      List.mem_map.2 ⟨_, hm, rfl⟩
+    obtain ⟨d, hd, hreg, hins, houts⟩ := VS.bb_struct hr sv hm'
+    refine ⟨d, hd, hreg, fun g hg => ?_, fun g hg => ?_⟩
+    · obtain ⟨h1, h2⟩ := hins g hg
+      exact ⟨h1, h2.trans (Glue.pin_list pins g)⟩
+    · obtain ⟨h1, h2⟩ := houts g hg
+      exact ⟨h1, h2.trans (Glue.pin_list pins g)⟩
+
+/-- non-vacuity: the example netlist of C14 (a nand over a net defined later, an input and a constant; a flop with an
+    unconnected clock; an assign) -/
+example : (transform C14.ex.toModule [C14.exBB] id).toOption.map (fun c => (c.fanin "u.d", c.fanin "u.clk", c.fanout "u.q")) =
+    some (["o"], [], ["q"]) := by decide +kernel
 
 end CG.C02
